@@ -4,6 +4,7 @@
 #include "../mm.h"
 #include "../obs.h"
 #include "parse_sets.h"
+#include "corpus.h"
 
 namespace {
 enum { NIL = -1000000, OUTSIDE = -2000000, MAXSEG = 24 };
@@ -26,7 +27,7 @@ struct Local { uint64_t strings = 0, parses = 0, contexts = 0, splits = 0, oom_r
 
 template <class C> struct Runner {
     FenceBuf fb; Ledger led; Ctx *ctx; Local *lc;
-    Runner(Ctx *c, Local *l) : fb(4), ctx(c), lc(l) {}
+    Runner(Ctx *c, Local *l, size_t pages = 4) : fb(pages), ctx(c), lc(l) {}
     void bad(const C *s, int n, const Str &what) { ctx->violation("", narrow<C>(s, s + n), what + fmt(" type=%s", Api<C>::name())); }
     // one parse with the ledger manager; checks residue rules; returns outcome
     void parse(Out &o, const C *p, int n, const C *orig, int on, const char *where) {
@@ -59,11 +60,29 @@ template <class C> struct Runner {
             Out base, o;
             const C *p = (const C *)fb.put_end(s, (size_t)n * sizeof(C));
             parse(base, p, n, s, n, "guard-placed");
+            // the entry points that take a caller-provided parser state use the C library allocator: same residue rules, observed
+            // through the interposed malloc/free of the library objects
+            {
+                typename A::Uri u; typename A::State st; memset(&u, 0xEE, sizeof u); memset(&st, 0xEE, sizeof st); st.uri = &u;
+                long bal0 = g_libc.balance; uint64_t bad0 = g_libc.bad_free;
+                int rc = A::ParseUriEx(&st, p, p + n); lc->parses++;
+                Out o2; fill_out<C>(o2, rc, rc ? st.errorPos : (const C *)0, u, p, n);
+                if (memcmp(&o2, &base, sizeof o2) != 0) bad(s, n, fmt("ParseUriEx outcome differs from ParseSingleUriExMm: rc %d vs %d, errOff %ld vs %ld", o2.rc, base.rc, o2.err, base.err));
+                if (rc != URI_SUCCESS) {
+                    if (g_libc.balance != bal0) bad(s, n, fmt("%ld block(s) still allocated after a failing ParseUriEx, before the caller frees anything", g_libc.balance - bal0));
+                    if (u.pathHead || u.pathTail || u.hostData.ip4 || u.hostData.ip6) bad(s, n, "output structure still holds path nodes or address data after a failing ParseUriEx");
+                    uint64_t f0 = g_libc.n_free_nonnull; A::FreeUriMembers(&u); A::FreeUriMembers(&u);
+                    if (g_libc.n_free_nonnull != f0 && g_libc.balance == bal0) bad(s, n, "freeing the output of a failed ParseUriEx released memory");
+                } else { A::FreeUriMembers(&u); if (g_libc.balance != bal0) bad(s, n, fmt("%ld block(s) outstanding after ParseUriEx + free", g_libc.balance - bal0)); uint64_t f0 = g_libc.n_free_nonnull; A::FreeUriMembers(&u); if (g_libc.n_free_nonnull != f0) bad(s, n, "repeated free after ParseUriEx released more memory"); }
+                if (g_libc.bad_free != bad0) bad(s, n, "free() of a pointer libc never handed to the library (ParseUriEx)");
+                if (g_libc.balance != bal0) { A::FreeUriMembers(&u); }
+            }
             // (5) out-of-memory at every allocation index
             {
                 typename A::Uri u; const C *ep = 0; led.clear_injection(); uint64_t r0 = led.n_requests;
                 int rc = A::ParseSingleUriExMm(&u, p, p + n, &ep, &led.mm); uint64_t nreq = led.n_requests - r0; A::FreeUriMembersMm(&u, &led.mm);
                 if (rc == URI_SUCCESS || nreq) for (uint64_t k = 1; k <= nreq; k++) for (int mode = 0; mode < 2; mode++) {
+                    if (depth < 0 && nreq > 24 && k > 8 && k + 8 <= nreq && k != nreq / 2) continue;   // stretch family: first, middle and last requests only
                     memset(&u, 0xEE, sizeof u); led.reset(); if (mode) led.fail_from = k; else led.fail_at = k;
                     rc = A::ParseSingleUriExMm(&u, p, p + n, &ep, &led.mm); lc->oom_runs++;
                     if (rc != URI_ERROR_MALLOC) bad(s, n, fmt("allocation %llu failed (%s) but parse returned %d", (unsigned long long)k, mode ? "from-k-on" : "once", rc));
@@ -73,7 +92,7 @@ template <class C> struct Runner {
                     led.reset();
                 }
             }
-            if (depth >= 1) {
+            if (depth >= 1 || depth == -1) {
                 // (2) middle of a larger buffer, each trailing context
                 for (int c = -1; c < DFA_NCLASSES; c++) {
                     C ctxbuf[16]; C cc = c < 0 ? (C)0 : (C)(unsigned char)DFA_CLASS_REP[c];
@@ -99,7 +118,7 @@ template <class C> struct Runner {
 };
 struct Both {
     Local lc; Runner<char> ra; Runner<wchar_t> rw; Ctx &ctx; std::vector<wchar_t> wb;
-    Both(Ctx &c) : ra(&c, &lc), rw(&c, &lc), ctx(c), wb(256) {}
+    Both(Ctx &c, size_t pages = 4) : ra(&c, &lc, pages), rw(&c, &lc, pages), ctx(c), wb(256) {}
     void run(const char *s, int n, int depth) {
         ctx.progress++; ra.run(s, n, depth);
         if ((size_t)n > wb.size()) wb.resize(n);
@@ -114,19 +133,23 @@ void run(Ctx &ctx) {
     ip6_product(ctx, z.ip_groups3 - 1, z.ip_groups4 - 1, [&](const Str &s) { b.run(s.data(), (int)s.size(), 2); });
     ipfuture_product(ctx, z.fut_len - 1, [&](const Str &s) { b.run(s.data(), (int)s.size(), 2); });
     if (z.octets) octet_product(ctx, [&](const Str &s) { b.run(s.data(), (int)s.size(), 1); });
+    // stretch family (long components): guard-placed, one trailing-context round, failing allocations at both ends and in the middle
+    { Both bs(ctx, 520); uint64_t si = 0; stretch_family(ctx.secondary ? 0 : ctx.quick() ? 1 : 2, [&](const Str &s) { if (!ctx.mine(si++) || ctx.expired()) return;
+        for (auto &x : { s, s + "%4", s + "[" }) { bs.run(x.data(), (int)x.size(), -1); ctx.st.count("stretch_family"); } });
+      Local &a = b.lc, &c = bs.lc; a.strings += c.strings; a.parses += c.parses; a.contexts += c.contexts; a.splits += c.splits; a.oom_runs += c.oom_runs; a.fail_parses += c.fail_parses; a.ok_parses += c.ok_parses; a.placeholder_ranges += c.placeholder_ranges; }
     Local &l = b.lc;
     ctx.st.count("evaluations", l.parses + l.oom_runs); ctx.st.count("strings", l.strings); ctx.st.count("trailing_context_runs", l.contexts); ctx.st.count("split_point_runs", l.splits);
     ctx.st.count("oom_injections", l.oom_runs); ctx.st.count("failing_parses", l.fail_parses); ctx.st.count("succeeding_parses", l.ok_parses); ctx.st.count("placeholder_ranges", l.placeholder_ranges);
     if (ctx.worker == 0) { ctx.st.sample("//[1:2::3"); ctx.st.sample("a%4"); ctx.st.sample("s://u@[0::aF9:1.2.3.4]:80/p"); ctx.st.count("param_k", z.k); ctx.st.count("param_L", z.L); }
 }
-void replay(Ctx &ctx, const Str &enc) { Both b(ctx); b.run(enc.data(), (int)enc.size(), 2); }
+void replay(Ctx &ctx, const Str &enc) { Both b(ctx, 520); b.run(enc.data(), (int)enc.size(), enc.size() > 200 ? -1 : 2); }
 Str coverage(const Ctx &, const Stats &st) {
     return jkv("states", DFA_NSTATES) + ", " + jkv("transitions", (uint64_t)(DFA_NSTATES - 1) * 256) + ", " + jkv("traces_validated_against_impl", st.get("strings")) + ", " +
            jkv("evaluations", st.get("evaluations")) + ", " + jkv("distinct_nontrivial", st.get("trailing_context_runs") + st.get("split_point_runs") + st.get("oom_injections")) + ", " +
            jkvs("rule", "cases = (string, placement) pairs: every string of the lighter C01 sets is parsed at the very end of a read-only mapping followed by an inaccessible page (any over-read or write faults), then in the middle of a buffer under each of 22 trailing contexts (one per byte class of the spec DFA, and NUL) and at every split point of the text; complete outcomes (code, error offset, all component offsets, host bytes) must coincide. Each parse uses a ledger allocator: no block may be live after a failure, the output may be freed repeatedly, and every allocation index is failed once and from-k-on. distinct_nontrivial = context runs + split runs + injected failures (each a distinct (string, placement/fault) pair by construction).") + ", " +
            jkv("strings", st.get("strings")) + ", " + jkv("trailing_context_runs", st.get("trailing_context_runs")) + ", " + jkv("split_point_runs", st.get("split_point_runs")) + ", " + jkv("oom_injections", st.get("oom_injections")) + ", " +
            jkv("failing_parses", st.get("failing_parses")) + ", " + jkv("succeeding_parses", st.get("succeeding_parses")) + ", " + jkv("placeholder_ranges", st.get("placeholder_ranges")) + ", " +
-           jkv("k_extra_states", st.get("param_k")) + ", " + jkv("bruteforce_length", st.get("param_L")) + ", " + jsamples(st);
+           jkv("k_extra_states", st.get("param_k")) + ", " + jkv("bruteforce_length", st.get("param_L")) + ", " + jkv("stretch_family_strings", st.get("stretch_family")) + ", " + jsamples(st);
 }
 Check chk = { "C03", "model_checking", run, replay, coverage, "a read one character past the range faults because the range ends at a PROT_NONE page; a write to the input faults because the library only sees a PROT_READ view|reads before `first` are not fenced (the buffer start is not guard-placed)" };
 REGISTER_CHECK(chk);
